@@ -88,6 +88,7 @@ def _directive(form, style, tool, name):
     c = style + " " + tool + ": "
     return {"same-line": c + f"ignore[{name}]", "same-line-bare": c + "ignore", "next-line": c + f"ignore-next-line[{name}]",
             "block-start": c + f"ignore-start {name}", "block-end": c + "ignore-end",
+            "block-bracket-start": c + f"ignore-start[{name}]",
             "file": c + f"ignore-file[{name}]", "file-bare": c + "ignore-file",
             # the space-separated spellings the documentation also uses
             "same-line-space": c + f"ignore {name}", "file-space": c + f"ignore-file {name}"}[form]
@@ -97,12 +98,13 @@ def make_h_scope(nlines):
     def h(ctx):
         from src.core.types import Violation
         from src.linter_config.ignore import IgnoreDirectiveParser
-        form = ctx.pick("form", ("same-line", "same-line-bare", "next-line", "block", "file", "file-bare", "none"))
+        form = ctx.pick("form", ("same-line", "same-line-bare", "next-line", "block", "block-bracket", "file", "file-bare", "none"))
+        bracket_block, form = form == "block-bracket", form.replace("-bracket", "")
         style = ctx.pick("style", ("#", "//"))
         tool = ctx.pick("tool", ("thailint", "design-lint"))
         names = ctx.pick("names", ("own-prefix", "own-full-upper", "other-rule"))
         name = {"own-prefix": "magic-numbers", "own-full-upper": RULE.upper(), "other-rule": "nesting"}[names]
-        n = nlines
+        n = nlines if form not in ("file", "file-bare") else max(nlines, 12)      # the ten-line header boundary is always inside
         lines = ["x%d = compute(%d)" % (i, i) for i in range(1, n + 1)]
         p = ctx.pick("pos", tuple(range(1, n + 1)))
         v = ctx.int("violation_line", 1, n)
@@ -114,7 +116,7 @@ def make_h_scope(nlines):
         elif form == "block":
             e = ctx.pick("end", tuple(range(1, n + 1)))
             ctx.assume(e > p)
-            lines[p - 1] = _directive("block-start", style, tool, name)
+            lines[p - 1] = _directive("block-bracket-start" if bracket_block else "block-start", style, tool, name)
             lines[e - 1] = _directive("block-end", style, tool, name)
         elif form in ("file", "file-bare"):
             lines[p - 1] = _directive(form, style, tool, name)
@@ -146,6 +148,19 @@ def make_h_scope(nlines):
             if "ignore" in lines[0]:
                 ctx.assume(False)
             lines[0] += "  " + style + " page" + odd + "break"
+        # the directive written in capitals, and followed by a reason that happens to mention the violation's own rule
+        plain = second == "none" and odd == "none" and form != "none" and (tool == "thailint" or nlines > 8)
+        kw_case = ctx.pick("directive_case", ("as-documented", "capitals")) if plain else "as-documented"
+        reason = ctx.pick("reason_after_the_directive", ("none", " - the magic-numbers here are fine", "  @ magic-numbers are fine")) if plain else "none"
+        ctx.note("directive_case", kw_case)
+        ctx.note("reason", reason)
+        if plain:
+            marker = style + " " + tool + ":"
+            k = next(i for i, l in enumerate(lines) if marker in l)          # the (first) directive line
+            head, tail = lines[k].split(marker, 1)
+            if kw_case == "capitals":
+                tail = tail.upper()
+            lines[k] = head + (marker.upper() if kw_case == "capitals" else marker) + tail + ("" if reason == "none" else reason.replace("@", style))
         content = "\n".join(lines) + "\n"
         d = Path(tempfile.gettempdir()) / "c04-scope-project"
         parser = IgnoreDirectiveParser(d)
@@ -323,6 +338,31 @@ def h_every_linter(ctx):
                 name=name, still_there=[list(k) for k in (ka - want)][:3], wrongly_removed=[list(k) for k in (want - ka)][:3])
 
 
+def h_file_header_directives(ctx):
+    """file-header findings (left out of K3's comparison) under a file-level directive in the first line of a Python
+    module: naming file-header (or no rule) removes them, naming another rule leaves them exactly as they were."""
+    case = ctx.pick("module", ("no-docstring", "docstring-missing-fields"))
+    text = {"no-docstring": "import os\n\n\ndef f(a):\n    return os.getcwd() + a\n",
+            "docstring-missing-fields": '"""\nPurpose: demo module\n"""\nimport os\n\n\ndef f(a):\n    return os.getcwd() + a\n'}[case]
+    form = ctx.pick("form", ("file", "file-space", "file-bare", "file-bare-with-reason"))
+    names = ctx.pick("names", ("file-header", "file-header.validation", "magic-numbers", "nesting srp", "FILE-HEADER"))
+    tool = ctx.pick("tool", ("thailint", "design-lint"))
+    if form.startswith("file-bare"):
+        ctx.assume(names == "file-header")
+        line = _directive("file-bare", "#", tool, "") + (" - generated module" if form.endswith("reason") else "")
+    else:
+        line = _directive(form, "#", tool, names.replace(" ", ", ") if form == "file" else names)
+    base = [v for v in _lint_text("fh_mod.py", text) if v.rule_id.startswith("file-header")]
+    ctx.require("module-triggers-file-header", len(base) >= 1, module=case)
+    after = [v for v in _lint_text("fh_mod.py", line + "\n" + text) if v.rule_id.startswith("file-header")]
+    covers = form.startswith("file-bare") or names.lower().startswith("file-header")
+    ctx.cover("suppressed" if covers else "unchanged")
+    want = Counter() if covers else Counter((v.rule_id, v.message) for v in base)
+    got = Counter((v.rule_id, v.message) for v in after)
+    ctx.require("file-header-findings-removed-iff-the-directive-covers-file-header", got == want, directive=line,
+                before=len(base), after=len(after))
+
+
 # ------------------------------------------------------------------ K4: linter-level ignore patterns
 IGNORE_SECTIONS = (   # documented section name per trigger (docs/configuration.md: "All linters support the ignore field")
     ("magic-numbers", "magic-numbers.", "magic.py"), ("magic-numbers", "magic-numbers.", "magic.ts"), ("magic-numbers", "magic-numbers.", "magic.rs"),
@@ -427,12 +467,17 @@ def obligations(tier):
         Ob(name="K2-directive-scope", engine="pathex", harness=make_h_scope(n),
            functions=["IgnoreDirectiveParser.should_ignore_violation", "_is_ignored_in_content", "_check_block_ignore/_process_block_line/_handle_block_end",
                       "_check_prev_line_ignore/_get_prev_line", "_check_current_line_ignore", "_has_file_ignore_in_content", "directive_markers.*"],
-           bounds="violation line symbolic in [1,%d]; forked: directive form (7), position(s) 1..%d, comment style (#, //), tool word (2), naming (own prefix / own full id upper-case / another rule), an optional second directive naming another rule (previous line, same line, enclosing block, file level)" % (n, n),
+           bounds="violation line symbolic in [1,%d]; forked: directive form (8, block start as `ignore-start name` and `ignore-start[name]`), the directive in capitals, a reason after it that mentions the violation's own rule, position(s) 1..%d, comment style (#, //), tool word (2), naming (own prefix / own full id upper-case / another rule), an optional second directive naming another rule (previous line, same line, enclosing block, file level); file-level forms use at least 12 lines" % (n, n),
            timeout=400, workers=14, must_cover=("ignored", "kept")),
         Ob(name="K3-every-linter-honours-directives", engine="pathex", harness=h_every_linter,
            functions=["Orchestrator.lint_files", "every rule's check() and its use of the ignore parser"],
            bounds="forked: %d catalogue triggers (rule x language) x 8 directive forms/placements x 3 spellings; nothing symbolic (parser in the loop)" % (len(triggers.T) - 1),
            timeout=900, workers=14, must_cover=("suppressed", "unchanged")),
+        Ob(name="K3h-file-header-under-file-level-directives", engine="pathex", harness=h_file_header_directives,
+           functions=["FileHeaderRule.check/_has_file_ignore/_has_standard_ignore/_line_has_matching_ignore", "ignore._check_specific_rule_ignore",
+                      "rule_matcher.check_bracket_rules/check_space_separated_rules/named_rules"],
+           bounds="forked: 2 Python modules x 4 file-level forms (bracket, space, bare, bare + reason) x 5 rule lists (own prefix, own id, another rule, two other rules, own in capitals) x 2 tool words",
+           timeout=300, workers=8, must_cover=("suppressed", "unchanged")),
         Ob(name="K4-linter-level-ignore-patterns", engine="pathex", harness=h_linter_ignore,
            functions=["every rule's ignore-pattern handling (_is_file_ignored / is_ignored_path / _matches_pattern / DRY ignore_patterns ...)", "Orchestrator.lint_files"],
            bounds="forked: %d (linter section, trigger) pairs x 4 documented pattern forms (**/name, dir/**, exact relative path, substring) + a non-matching pattern x key spelling" % len(IGNORE_SECTIONS),
